@@ -1,10 +1,10 @@
 #!/bin/bash
-# usage: trybenign.sh <benign-or-seed-id> <Cxx> [grep-pattern]   full check output on a scratch worktree (/tmp/wt2) with the patch applied
+# usage: trybenign.sh <benign-or-seed-id> <Cxx> [grep-pattern]   full check output on a scratch worktree (/tmp/wt5) with the patch applied
 set -u
 d=/verif/benign/$1; [ -d "$d" ] || d=/verif/seeded/$1
-git -C /repo worktree list | grep -q /tmp/wt2 || git -C /repo worktree add -q --detach /tmp/wt2 HEAD
-git -C /tmp/wt2 reset -q --hard; git -C /tmp/wt2 checkout -q --detach "$(git -C /repo rev-parse HEAD)"
-(cd /tmp/wt2 && git apply --3way $d/patch.diff >/dev/null 2>&1 || echo "PATCH DOES NOT APPLY"; git reset -q)
-[ -n "${KEEP:-}" ] || trap 'git -C /tmp/wt2 reset -q --hard' EXIT
+git -C /repo worktree list | grep -q /tmp/wt5 || git -C /repo worktree add -q --detach /tmp/wt5 HEAD
+git -C /tmp/wt5 reset -q --hard; git -C /tmp/wt5 checkout -q --detach "$(git -C /repo rev-parse HEAD)"
+(cd /tmp/wt5 && git apply --3way $d/patch.diff >/dev/null 2>&1 || echo "PATCH DOES NOT APPLY"; git reset -q)
+[ -n "${KEEP:-}" ] || trap 'git -C /tmp/wt5 reset -q --hard' EXIT
 mkdir -p /tmp/ev2/evidence; cp /verif/known_findings.txt /tmp/ev2/; ln -sfn /verif/checker /tmp/ev2/checker
-/verif/bin/mcapvet "$2" --tier quick --repo /tmp/wt2 --verif /tmp/ev2 2>&1 | grep -v "^   rule .* violated=0 " | grep -E "${3:-.}" | cut -c1-1500
+/verif/bin/mcapvet "$2" --tier quick --repo /tmp/wt5 --verif /tmp/ev2 2>&1 | grep -v "^   rule .* violated=0 " | grep -E "${3:-.}" | cut -c1-1500
